@@ -1,7 +1,575 @@
-//! C18 driver (stub: not built yet).
-use crate::trace::Args;
+//! C18 driver: class groups of negative fundamental discriminants.
+//!
+//! Cases come from spec/classgroup/ClassGroupShapes.tla (every fundamental |D| < bound, size/residue
+//! classes for seeded discriminants) plus the discriminants of the repository's own test.  For every
+//! case `classgroup::classgroup` is run (with and without a thread pool) with an output directory;
+//! the relations handed to the relation store are recorded by the hook in `sieve_block_poly`
+//! together with the sieve value u they come from.  For a run that returns a result the driver
+//! emits one `result` event (class number, invariants, coordinates, `classnumber` file) and one
+//! `line` event per line of `relations.sieve` (with the sieve value of the logged relation that has
+//! the same factor list, square-root witnesses computed here, and the coordinates of its primes).
+//! Nothing is judged here: ClassGroupTrace.tla decides.
 
-pub fn run(_args: &Args) -> i32 {
-    eprintln!("driver c18 not built yet");
-    2
+use std::collections::{BTreeMap, HashMap};
+use std::path::{Path, PathBuf};
+use std::str::FromStr;
+
+use rand::rngs::StdRng;
+use rand::Rng;
+use serde_json::{json, Value};
+
+use yamaquasi::relationcls::ClassGroup;
+use yamaquasi::{classgroup, Int, Preferences, Verbosity};
+
+use crate::gen::{is_prime_u64, rand_bits, rng_for, Pool, Uint};
+use crate::trace::*;
+
+/// discriminants of the repository's own test (src/classgroup.rs::test_classgroup)
+const SUITE: &[&str] = &[
+    "103142932",
+    "10148",
+    "424708",
+    "1411012",
+    "2402548",
+    "131675478501979154852",
+    "4133106580052",
+    "277747586393177609383447877774824905287",
+    "1547792612939506766277963208426820605844",
+];
+
+struct Case {
+    name: String,
+    n: Uint, // |D|
+    /// prime factorisation of |D| (with multiplicity) as certificate chains, when known
+    facs: Option<Vec<Value>>,
+    shape: Value,
+}
+
+// ---------------------------------------------------------------------------------------------
+// own arithmetic (independent of the library)
+// ---------------------------------------------------------------------------------------------
+
+fn mulmod64(a: u64, b: u64, m: u64) -> u64 {
+    ((a as u128 * b as u128) % m as u128) as u64
+}
+
+fn powmod64(mut b: u64, mut e: u64, m: u64) -> u64 {
+    let mut r = 1 % m;
+    b %= m;
+    while e > 0 {
+        if e & 1 == 1 {
+            r = mulmod64(r, b, m);
+        }
+        b = mulmod64(b, b, m);
+        e >>= 1;
+    }
+    r
+}
+
+/// a square root of a modulo the odd prime p (Tonelli-Shanks), None if a is not a residue
+fn sqrt_mod(a: u64, p: u64) -> Option<u64> {
+    let a = a % p;
+    if a == 0 {
+        return Some(0);
+    }
+    if powmod64(a, (p - 1) / 2, p) != 1 {
+        return None;
+    }
+    if p % 4 == 3 {
+        return Some(powmod64(a, (p + 1) / 4, p));
+    }
+    let mut q = p - 1;
+    let mut s = 0;
+    while q % 2 == 0 {
+        q /= 2;
+        s += 1;
+    }
+    let mut z = 2;
+    while powmod64(z, (p - 1) / 2, p) != p - 1 {
+        z += 1;
+    }
+    let mut m = s;
+    let mut c = powmod64(z, q, p);
+    let mut t = powmod64(a, q, p);
+    let mut r = powmod64(a, (q + 1) / 2, p);
+    while t != 1 {
+        let mut i = 0;
+        let mut tt = t;
+        while tt != 1 {
+            tt = mulmod64(tt, tt, p);
+            i += 1;
+            if i == m {
+                return None;
+            }
+        }
+        let b = powmod64(c, 1 << (m - i - 1), p);
+        m = i;
+        c = mulmod64(b, b, p);
+        t = mulmod64(t, c, p);
+        r = mulmod64(r, b, p);
+    }
+    Some(r)
+}
+
+fn umod(n: &Uint, p: u64) -> u64 {
+    (*n % Uint::from(p)).digits()[0]
+}
+
+/// b+ of the prime form of norm p for the discriminant D = -n: the b in [0, p] with b = D mod 2 and
+/// b^2 = D mod 4p; -1 if there is none (p inert, or not a prime)
+fn b_plus(n: &Uint, p: u64) -> i64 {
+    let n8 = n.digits()[0] & 7; // |D| mod 8
+    let dodd = n8 & 1 == 1;
+    if p == 2 {
+        // D = -n mod 8
+        return match (8 - n8) & 7 {
+            1 => 1,
+            0 => 0,
+            4 => 2,
+            _ => -1,
+        };
+    }
+    if p < 2 || !is_prime_u64(p) {
+        return -1;
+    }
+    let dm = (p - umod(n, p)) % p; // D mod p
+    if dm == 0 {
+        return if dodd { p as i64 } else { 0 };
+    }
+    match sqrt_mod(dm, p) {
+        None => -1,
+        Some(r) => {
+            let r = if (r & 1 == 1) == dodd { r } else { p - r };
+            r as i64
+        }
+    }
+}
+
+/// trial factorisation of a number below 2^63 (own code); None if it does not finish with
+/// prime factors below 2^31
+fn factor_small(mut m: u64) -> Option<Vec<u64>> {
+    let mut res = vec![];
+    let mut p = 2u64;
+    while p * p <= m && p < (1 << 21) {
+        while m % p == 0 {
+            res.push(p);
+            m /= p;
+        }
+        p += if p == 2 { 1 } else { 2 };
+    }
+    if m > 1 {
+        if m < (1 << 31) && is_prime_u64(m) {
+            res.push(m);
+        } else {
+            return None;
+        }
+    }
+    Some(res)
+}
+
+/// fundamental: -n = 1 mod 4 squarefree, or -n = 4m' with m' = 2, 3 mod 4 squarefree
+fn is_fundamental_small(n: u64) -> bool {
+    let sqf = |m: u64| {
+        let f = factor_small(m);
+        match f {
+            None => false,
+            Some(f) => f.windows(2).all(|w| w[0] != w[1]),
+        }
+    };
+    if n % 4 == 3 {
+        sqf(n)
+    } else if n % 4 == 0 {
+        let m = n / 4;
+        (m % 4 == 1 || m % 4 == 2) && sqf(m)
+    } else {
+        false
+    }
+}
+
+fn small_facs(n: u64) -> Option<Vec<Value>> {
+    factor_small(n).map(|f| f.into_iter().map(Pool::small_chain).collect())
+}
+
+// ---------------------------------------------------------------------------------------------
+// case generation
+// ---------------------------------------------------------------------------------------------
+
+fn class_ok(n: u64, cls: &str) -> bool {
+    match cls {
+        "7mod8" => n % 8 == 7,
+        "3mod8" => n % 8 == 3,
+        "4m1" => n % 4 == 0 && (n / 4) % 4 == 1,
+        "4m2" => n % 4 == 0 && (n / 4) % 4 == 2,
+        _ => false,
+    }
+}
+
+/// seeded |D| <= 10^7-ish of the given bit size and class: random candidates, own fundamental test
+fn rand_small(rng: &mut StdRng, bits: u32, cls: &str) -> u64 {
+    loop {
+        let mut n = rand_bits(rng, bits).digits()[0];
+        // force the residue class
+        n = match cls {
+            "7mod8" => (n & !7) | 7,
+            "3mod8" => (n & !7) | 3,
+            "4m1" => (n & !15) | 4,
+            "4m2" => (n & !15) | 8,
+            _ => unreachable!(),
+        };
+        if 64 - n.leading_zeros() != bits {
+            continue;
+        }
+        if class_ok(n, cls) && is_fundamental_small(n) {
+            return n;
+        }
+    }
+}
+
+/// |D| of about `bits` bits in the given class as a product of certified primes
+fn rand_big(pool: &mut Pool, rng: &mut StdRng, bits: u32, cls: &str) -> (Uint, Vec<Value>) {
+    loop {
+        // bits available for the odd part
+        let (pre, prebits): (u64, u32) = match cls {
+            "7mod8" | "3mod8" => (1, 0),
+            "4m1" => (4, 2),
+            "4m2" => (8, 3),
+            _ => unreachable!(),
+        };
+        let ob = bits - prebits;
+        let k = if ob >= 60 { rng.gen_range(1..=3u32) } else { rng.gen_range(1..=2u32) };
+        // split ob bits among k primes, each >= 8 bits
+        let mut sizes = vec![];
+        let mut left = ob;
+        for i in 0..k {
+            let remaining = k - i - 1;
+            let s = if remaining == 0 { left } else { rng.gen_range(8..=(left - 8 * remaining)) };
+            sizes.push(s);
+            left -= s;
+        }
+        let mut primes: Vec<Uint> = vec![];
+        let mut prod = Uint::ONE;
+        let mut ok = true;
+        for (i, &s) in sizes.iter().enumerate() {
+            let last = i + 1 == sizes.len();
+            let want: u64 = match cls {
+                "7mod8" => 7,
+                "3mod8" => 3,
+                "4m1" => 1,
+                _ => 0,
+            };
+            let pr = prod;
+            let prs = primes.clone();
+            let filt = move |p: &Uint| -> bool {
+                if prs.contains(p) || p.digits()[0] & 1 == 0 {
+                    return false;
+                }
+                if !last {
+                    return true;
+                }
+                let m = (pr * *p).digits()[0];
+                match want {
+                    7 | 3 => m % 8 == want,
+                    1 => m % 4 == 1,
+                    _ => true,
+                }
+            };
+            // the bit size of a product is s1+s2 or s1+s2-1: aim one bit higher for later factors
+            let sb = if i == 0 { s } else { s + 1 };
+            if sb < 3 {
+                ok = false;
+                break;
+            }
+            let p = pool.prime_with(sb, &filt);
+            prod = prod * p;
+            primes.push(p);
+        }
+        if !ok {
+            continue;
+        }
+        let n = prod * Uint::from(pre);
+        if n.bits() != bits {
+            continue;
+        }
+        let mut facs: Vec<Value> = vec![];
+        let mut pp = pre;
+        while pp > 1 {
+            facs.push(Pool::small_chain(2));
+            pp /= 2;
+        }
+        for p in &primes {
+            facs.push(pool.chain_of(p).unwrap());
+        }
+        return (n, facs);
+    }
+}
+
+fn build_cases(shapes: &[Value], seed: u64, reps: u64, small_stride: u64) -> Vec<Case> {
+    let mut cases = vec![];
+    let mut rng = rng_for(seed, "c18");
+    let mut pool = Pool::new(seed ^ 0xc18);
+    let phase = if small_stride > 1 { seed % small_stride } else { 0 };
+    let mut small_idx = 0u64;
+    for sh in shapes {
+        match sh["kind"].as_str().unwrap() {
+            "small" => {
+                let n = sh["n"].as_u64().unwrap();
+                small_idx += 1;
+                // quick tier: a seeded residue class of the enumeration, plus every tiny one
+                if small_stride > 1 && n > 200 && small_idx % small_stride != phase {
+                    continue;
+                }
+                cases.push(Case { name: format!("small/{}", n), n: Uint::from(n), facs: small_facs(n), shape: sh.clone() });
+            }
+            "rand" => {
+                let bits = sh["bits"].as_u64().unwrap() as u32;
+                let cls = sh["cls"].as_str().unwrap();
+                let r = if bits > 24 { std::cmp::max(1, reps / 2) } else { reps };
+                for rep in 0..r {
+                    if bits <= 24 {
+                        let n = rand_small(&mut rng, bits, cls);
+                        cases.push(Case {
+                            name: format!("rand/{}/{}/{}", bits, cls, rep),
+                            n: Uint::from(n),
+                            facs: small_facs(n),
+                            shape: sh.clone(),
+                        });
+                    } else {
+                        let (n, facs) = rand_big(&mut pool, &mut rng, bits, cls);
+                        cases.push(Case { name: format!("rand/{}/{}/{}", bits, cls, rep), n, facs: Some(facs), shape: sh.clone() });
+                    }
+                }
+            }
+            k => panic!("unknown shape kind {}", k),
+        }
+    }
+    for (i, s) in SUITE.iter().enumerate() {
+        let n = Uint::from_str(s).unwrap();
+        let facs = if n.bits() < 63 { small_facs(n.digits()[0]) } else { None };
+        cases.push(Case { name: format!("suite/{}", i), n, facs, shape: json!({"kind": "suite"}) });
+    }
+    cases
+}
+
+// ---------------------------------------------------------------------------------------------
+// running the code under test
+// ---------------------------------------------------------------------------------------------
+
+struct RunOut {
+    g: Option<ClassGroup>,
+    events: Vec<String>,
+}
+
+fn run_classgroup(n: Uint, threads: usize, outdir: PathBuf, deadline: f64) -> Result<RunOut, Value> {
+    guard_deadline(deadline, move || {
+        let d = -Int::from_bits(n);
+        let mut prefs = Preferences::default();
+        prefs.verbosity = Verbosity::Silent;
+        prefs.outdir = Some(outdir);
+        prefs.threads = if threads > 1 { Some(threads) } else { None };
+        let tpool = if threads > 1 {
+            Some(rayon::ThreadPoolBuilder::new().num_threads(threads).build().expect("cannot create thread pool"))
+        } else {
+            None
+        };
+        yamaquasi::verif::start();
+        let r = std::panic::catch_unwind(std::panic::AssertUnwindSafe(|| classgroup::classgroup(&d, &prefs, tpool.as_ref())));
+        let events = yamaquasi::verif::stop();
+        match r {
+            Ok(g) => RunOut { g, events },
+            Err(e) => std::panic::resume_unwind(e),
+        }
+    })
+}
+
+fn signed_digits(s: &str) -> Value {
+    let (neg, mag) = match s.strip_prefix('-') {
+        Some(m) => (true, m),
+        None => (false, s),
+    };
+    let m = Uint::from_str(mag).expect("decimal");
+    json!({"neg": neg && !m.is_zero(), "mag": dn(&m)})
+}
+
+/// the line `CRelationSet::emit` writes for a logged relation
+fn rel_line(ev: &Value) -> String {
+    let mut toks: Vec<String> = vec![];
+    let mut push = |pe: &Value| {
+        let p = pe[0].as_i64().unwrap();
+        let e = pe[1].as_i64().unwrap();
+        let (rp, re) = if e > 0 { (p, e) } else { (-p, -e) };
+        for _ in 0..re {
+            toks.push(rp.to_string());
+        }
+    };
+    for pe in ev["f"].as_array().unwrap() {
+        push(pe);
+    }
+    if !ev["l1"].is_null() {
+        push(&ev["l1"]);
+    }
+    if !ev["l2"].is_null() {
+        push(&ev["l2"]);
+    }
+    toks.join(" ")
+}
+
+fn parse_coord_file(path: &Path) -> BTreeMap<u64, Vec<u128>> {
+    let mut m = BTreeMap::new();
+    if let Ok(s) = std::fs::read_to_string(path) {
+        for l in s.lines() {
+            let mut it = l.split_whitespace();
+            let Some(p) = it.next().and_then(|t| t.parse::<u64>().ok()) else { continue };
+            let v: Option<Vec<u128>> = it.map(|t| t.parse::<u128>().ok()).collect();
+            if let Some(v) = v {
+                m.insert(p, v);
+            }
+        }
+    }
+    m
+}
+
+pub fn run(args: &Args) -> i32 {
+    let seed = arg_u64(args, "seed", 1);
+    let reps = arg_u64(args, "reps", 2);
+    let stride = arg_u64(args, "small-stride", 1);
+    let maxlines = arg_u64(args, "maxlines", 200) as usize;
+    let count_bound = arg_u64(args, "count-bound", 10_000_000);
+    let xcheck = arg_u64(args, "xcheck", 0);
+    let only = args.get("only").cloned();
+    let shapes = read_ndjson(arg_str(args, "shapes", "shapes.ndjson"));
+    let scratch = PathBuf::from(arg_str(args, "scratch", "/tmp/c18-scratch"));
+    let mut out = Out::create(arg_str(args, "out", "trace.ndjson"));
+    let cases = build_cases(&shapes, seed, reps, stride);
+    let mut lrng = rng_for(seed, "c18-lines");
+    for c in &cases {
+        let bits = c.n.bits();
+        // thread configurations: no pool always; a pool of 4 for multi-polynomial sizes and a sample of others
+        let mut tcfgs = vec![1usize];
+        if bits > 32 || c.n.digits()[0] % 5 == 0 || c.shape["kind"] == "suite" {
+            tcfgs.push(4);
+        }
+        for &threads in &tcfgs {
+            let case = format!("{}/t{}", c.name, threads);
+            if let Some(o) = &only {
+                if *o != case {
+                    continue;
+                }
+            }
+            let dd = format!("-{}", c.n);
+            let outdir = scratch.join(case.replace('/', "_"));
+            let _ = std::fs::remove_dir_all(&outdir);
+            // normal time: < 1 s up to 128 bits
+            let r = run_classgroup(c.n, threads, outdir.clone(), 900.0);
+            let base = json!({"case": case, "dd": dd, "d": dn(&c.n), "threads": threads, "bits": bits, "shape": c.shape});
+            let ro = match r {
+                Err(e) => {
+                    // panic or timeout: no result, not judged (recorded)
+                    out.ev2(base.clone(), json!({"op": "noresult", "why": e["outcome"], "msg": e.get("msg").cloned().unwrap_or(Value::Null),
+                                                 "loc": e.get("loc").cloned().unwrap_or(Value::Null)}));
+                    let _ = std::fs::remove_dir_all(&outdir);
+                    continue;
+                }
+                Ok(ro) => ro,
+            };
+            let Some(g) = ro.g else {
+                out.ev2(base.clone(), json!({"op": "noresult", "why": "none", "msg": Value::Null, "loc": Value::Null}));
+                let _ = std::fs::remove_dir_all(&outdir);
+                continue;
+            };
+            // logged relations of this run: line text -> sieve values
+            let mut logged: HashMap<String, Vec<(String, String, i64)>> = HashMap::new();
+            let mut nlogged = 0usize;
+            for s in &ro.events {
+                let Ok(ev) = serde_json::from_str::<Value>(s) else { continue };
+                if ev["op"] != "cls_rel" || ev["d"].as_str() != Some(&dd) {
+                    continue;
+                }
+                nlogged += 1;
+                logged.entry(rel_line(&ev)).or_default().push((
+                    ev["u"].as_str().unwrap().to_string(),
+                    ev["poly"].as_str().unwrap_or("").to_string(),
+                    ev["x"].as_i64().unwrap_or(0),
+                ));
+            }
+            // coordinates: returned generators, then the file of eliminated primes
+            let mut coords: BTreeMap<u64, Vec<u128>> = parse_coord_file(&outdir.join("group.structure.extra"));
+            let nextra = coords.len();
+            for (p, v) in &g.gens {
+                coords.insert(*p as u64, v.clone());
+            }
+            let inv: Vec<Value> = g.invariants.iter().map(|&x| du128(x)).collect();
+            let hfile = std::fs::read_to_string(outdir.join("classnumber"))
+                .ok()
+                .and_then(|s| Uint::from_str(s.trim()).ok())
+                .map(|h| dn(&h));
+            let sieve = std::fs::read_to_string(outdir.join("relations.sieve")).unwrap_or_default();
+            let lines: Vec<&str> = sieve.lines().collect();
+            let mut res = json!({"op": "result", "h": dn(&g.h), "hd": g.h.to_string(), "inv": inv,
+                "invd": g.invariants.iter().map(|x| x.to_string()).collect::<Vec<_>>(),
+                "gens": g.gens.iter().map(|(p, v)| json!([p, v.iter().map(|&x| du128(x)).collect::<Vec<_>>()])).collect::<Vec<_>>(),
+                "nlines": lines.len(), "nlogged": nlogged, "nextra": nextra});
+            if let Some(hf) = hfile {
+                res["hfile"] = hf;
+            }
+            if bits <= 30 && c.n.digits()[0] <= count_bound {
+                res["n"] = json!(c.n.digits()[0]);
+            }
+            if let Some(f) = &c.facs {
+                res["facs"] = Value::from(f.clone());
+            }
+            out.ev2(base.clone(), res);
+            // lines of relations.sieve (all of them, or a seeded sample of maxlines)
+            let mut idxs: Vec<usize> = (0..lines.len()).collect();
+            if lines.len() > maxlines {
+                for i in 0..maxlines {
+                    let j = lrng.gen_range(i..idxs.len());
+                    idxs.swap(i, j);
+                }
+                idxs.truncate(maxlines);
+                idxs.sort();
+            }
+            for li in idxs {
+                let line = lines[li];
+                // aggregate tokens by signed value, in order of first appearance
+                let mut f: Vec<(i64, i64)> = vec![];
+                let mut bad = false;
+                for t in line.split_whitespace() {
+                    match t.parse::<i64>() {
+                        Ok(v) if v != 0 && v.unsigned_abs() < (1 << 31) => {
+                            if let Some(x) = f.iter_mut().find(|x| x.0 == v) {
+                                x.1 += 1;
+                            } else {
+                                f.push((v, 1));
+                            }
+                        }
+                        _ => bad = true,
+                    }
+                }
+                let mut e = json!({"op": "line", "lineno": li + 1, "text": line, "bad": bad,
+                    "F": f.iter().map(|&(v, k)| json!([v.abs(), if v > 0 { k } else { -k }])).collect::<Vec<_>>(),
+                    "bp": f.iter().map(|&(v, _)| b_plus(&c.n, v.unsigned_abs())).collect::<Vec<_>>()});
+                if let Some(us) = logged.get(line) {
+                    let (u, poly, x) = &us[0];
+                    e["u"] = signed_digits(u);
+                    e["ud"] = json!(u);
+                    e["poly"] = json!(poly);
+                    e["x"] = json!(x);
+                }
+                if xcheck > 0 && (li as u64) % xcheck == 0 && f.len() <= 8 {
+                    e["xc"] = json!(true);
+                }
+                let co: Option<Vec<&Vec<u128>>> = f.iter().map(|&(v, _)| coords.get(&v.unsigned_abs())).collect();
+                if let Some(co) = co {
+                    if co.iter().all(|v| v.len() == g.invariants.len()) {
+                        e["inv"] = Value::from(g.invariants.iter().map(|&x| du128(x)).collect::<Vec<_>>());
+                        e["co"] = Value::from(co.iter().map(|v| v.iter().map(|&x| du128(x)).collect::<Vec<_>>()).collect::<Vec<_>>());
+                    }
+                }
+                out.ev2(base.clone(), e);
+            }
+            let _ = std::fs::remove_dir_all(&outdir);
+        }
+    }
+    out.finish();
+    0
 }
